@@ -232,7 +232,7 @@ impl<'a> Gen<'a> {
             }
         }
         if self.c.traversal == Traversal::Energy {
-            q.insert("model_name".into(), json!(*self.r.pick(&["Toyota_Camry", "Chevy_Bolt"])));
+            q.insert("model_name".into(), json!(*self.r.pick(&["Toyota_Camry", "Chevy_Bolt", "Chevy_Volt"])));
         }
         for p in &self.c.inputs {
             match p {
@@ -479,8 +479,15 @@ impl<'a> Gen<'a> {
                 match self.r.below(6) {
                     0 => q.insert("state_features".into(), json!({"distance": {"distance_unit": "miles", "initial": 1e300}})),
                     1 => q.insert("state_features".into(), json!({"nope": 1})),
-                    2 => q.insert("vehicle_rates".into(), json!({"distance": {"type": "factor", "factor": 0}})),
-                    3 => q.insert("cost_aggregation".into(), json!("foo")),
+                    2 => q.insert("vehicle_rates".into(), self.r.pick(&[
+                        json!({"distance": {"type": "factor", "factor": 0}}),
+                        json!({"time": ["raw"], "distance": ["factor", 2.0]}),
+                        json!({"time": ["offset", -1e300], "distance": {"type": "zero"}}),
+                        json!({"time": {"type": "factor", "factor": -1}, "distance": {"type": "offset", "offset": 1e308}}),
+                        json!({"distance": ["nope"]}), json!({"distance": []}), json!({"distance": {"type": "factor"}}),
+                        json!([["distance", {"type": "raw"}]]),
+                    ]).clone()),
+                    3 => q.insert("cost_aggregation".into(), self.r.pick(&[json!("foo"), json!("mul"), json!("sum"), json!(["mul"]), json!({"mul": null}), json!(1)]).clone()),
                     4 => q.insert("starting_soc_percent".into(), json!(*self.r.pick(&[150.0, -1.0, 0.0, 1e300]))),
                     _ => q.insert("weight_factor".into(), json!(*self.r.pick(&[-1.0, 1e308, -1e308, 5e-324]))),
                 };
@@ -497,6 +504,57 @@ impl<'a> Gen<'a> {
             }
         }
     }
+}
+
+/// is the (final, mutated) query malformed in a way the property names, so that under this configuration it
+/// must be answered with an error response?  Conservative: false when in doubt.
+fn must_error(c: &AppCfg, q: &Map<String, Value>) -> bool {
+    if has_grid(c) && q.contains_key("grid_search") {
+        return false; // grid choices may overwrite any field
+    }
+    let num = |k: &str| q.get(k).map(|v| v.is_number());
+    let id_ok = |k: &str, n: usize| q.get(k).map(|v| v.as_u64().map(|x| x < n as u64).unwrap_or(false));
+    if !matched(c) {
+        let (o, d, n) = if c.edge_oriented { ("origin_edge", "destination_edge", c.net.edges.len()) } else { ("origin_vertex", "destination_vertex", c.net.coords.len()) };
+        if id_ok(o, n) != Some(true) || id_ok(d, n) == Some(false) {
+            return true;
+        }
+    }
+    if uses_coords(c) {
+        if num("origin_x") != Some(true) || num("origin_y") != Some(true) {
+            return true;
+        }
+        match (num("destination_x"), num("destination_y")) {
+            (None, None) => {}
+            (Some(true), Some(true)) => {}
+            _ => return true,
+        }
+    }
+    if c.traversal == Traversal::Energy && !matches!(q.get("model_name").and_then(|v| v.as_str()), Some("Toyota_Camry") | Some("Chevy_Bolt") | Some("Chevy_Volt")) {
+        return true;
+    }
+    for p in &c.inputs {
+        match p {
+            InPlugin::Inject { key, overwrite: Some(false), .. } if q.contains_key(key) => return true,
+            InPlugin::LbNumeric { column } => {
+                if num(column.as_deref().unwrap_or("query_weight_estimate")) != Some(true) {
+                    return true;
+                }
+            }
+            InPlugin::LbCategorical { column, default: None } => {
+                if !matches!(q.get(column.as_deref().unwrap_or("query_weight_estimate")).and_then(|v| v.as_str()), Some("a") | Some("b")) {
+                    return true;
+                }
+            }
+            _ => {}
+        }
+    }
+    // a weight estimate that is present must be a number (read again by the load balancing step)
+    let lb_writes = c.inputs.iter().any(|p| matches!(p, InPlugin::LbNumeric { .. } | InPlugin::LbCategorical { .. } | InPlugin::LbHaversine));
+    if !lb_writes && num("query_weight_estimate") == Some(false) {
+        return true;
+    }
+    false
 }
 
 struct Case {
@@ -539,9 +597,11 @@ fn gen_case(r: &mut Rng, cat: &[AppCfg], st: &mut Stream) -> Case {
             gridded = true;
             st.count("grid:wellformed");
         }
-        // a later mutation may have repaired an earlier one, and grid choices may overwrite fields
-        if must && !gridded && !q.contains_key("grid_search") {
+        // decided on the final query: a later mutation may have repaired (or broken) what an earlier one did
+        let _ = (must, gridded);
+        if must_error(&cfg, &q) {
             must_err.push(tag.clone());
+            st.count("query:must_err");
         }
         if nm == 0 {
             st.count("query:unmutated");
@@ -677,9 +737,12 @@ fn run_case(st: &mut Stream, apps: &mut Apps, case: &Case, timeout: u64) -> bool
     let (app, log, _idxs) = match apps.get(cfg) {
         Ok(x) => x,
         Err(e) => {
-            // a configuration of the catalogue that cannot be built is a harness bug: make it loud
-            st.case(vec![format!("line \"M\" {} \"configuration builds\"", id), format!("line \"S\" {} \"configuration builds\"", id)],
-                    vec![format!("I {} BUILD-FAILED {}", id, e.replace('\n', " "))], desc);
+            // families named `config_refused*` expect the configuration to be rejected when the app is built (a
+            // build PANIC is never accepted); any other configuration that cannot be built is a harness bug: loud
+            let expected = case.family.contains("config_refused") && e.starts_with("build error");
+            let want = if expected { "ConfigurationRefused" } else { "configuration builds" };
+            st.case(vec![format!("line \"M\" {} \"{}\"", id, want), format!("line \"S\" {} \"{}\"", id, want)],
+                    vec![if expected { format!("I {} ConfigurationRefused", id) } else { format!("I {} BUILD-FAILED {}", id, e.replace('\n', " ")) }], desc);
             return false;
         }
     };
@@ -899,8 +962,10 @@ fn boundary(cat: &[AppCfg]) -> Vec<Case> {
         v.push(mk(16, json!([{"tag": "t0", "origin_vertex": 0, "destination_vertex": 8, "model_name": name}, {"tag": "t1", "origin_vertex": 0, "destination_vertex": 8, "model_name": "Chevy_Bolt"}]), &["t0"], "vehicle_names"));
     }
     v.push(mk(16, json!([{"tag": "t0", "origin_vertex": 0, "destination_vertex": 8}]), &["t0"], "vehicle_names"));
-    for soc in [json!(0), json!(-5), json!(150), json!(1e300), json!("x"), Value::Null] {
-        v.push(mk(16, json!([{"tag": "t0", "origin_vertex": 0, "destination_vertex": 8, "model_name": "Chevy_Bolt", "starting_soc_percent": soc}]), &[], "vehicle_names"));
+    for soc in [json!(0), json!(-5), json!(150), json!(1e300), json!("x"), Value::Null, json!(100), json!(0.001)] {
+        for name in ["Chevy_Bolt", "Chevy_Volt", "Toyota_Camry"] {
+            v.push(mk(16, json!([{"tag": "t0", "origin_vertex": 0, "destination_vertex": 8, "model_name": name, "starting_soc_percent": soc.clone()}]), &[], "vehicle_names"));
+        }
     }
     // ---- load balancer weights
     for cfg_id in [0usize, 5, 6] {
@@ -939,6 +1004,16 @@ fn boundary(cat: &[AppCfg]) -> Vec<Case> {
             }
         }
     }
+    // ---- vehicle rates in the sequence form of serde's internally tagged enums; `combined` has no JSON form:
+    //      rendering the route's cost model panicked (fixed 20d0dd1)
+    for cfg_id in [1usize, 4, 5, 10, 16] {
+        for vr in [json!({"time": ["combined"]}), json!({"distance": ["combined", {"type": "raw"}], "time": {"type": "raw"}}),
+                   json!({"distance": {"type": "raw"}, "time": ["combined", {"type": "raw"}, {"type": "factor", "factor": 2.0}]}),
+                   json!({"time": ["raw"], "distance": ["factor", 2.0]}), json!({"time": ["combined", ["combined", ["raw"]]]})] {
+            v.push(mk(cfg_id, json!([{"tag": "t0", "origin_vertex": 0, "destination_vertex": 8, "model_name": "Toyota_Camry", "query_weight_estimate": 1, "vehicle_rates": vr},
+                                      {"tag": "t1", "origin_vertex": 1, "destination_vertex": 2, "model_name": "Toyota_Camry", "query_weight_estimate": 1}]), &[], "vehicle_rates_combined"));
+        }
+    }
     // ---- run-configuration override
     for p in [1, 2, 7] {
         let mut c = mk(5, json!([{"tag": "t0", "origin_vertex": 0, "destination_vertex": 8, "query_weight_estimate": 3}, {"tag": "t1", "origin_vertex": 1, "destination_vertex": 7, "query_weight_estimate": 1},
@@ -947,6 +1022,9 @@ fn boundary(cat: &[AppCfg]) -> Vec<Case> {
         v.push(c);
     }
     v
+}
+fn good_unused() -> Value {
+    Value::Null
 }
 fn good_with_tag(q: &Value, tag: &str) -> Value {
     let mut q = q.clone();
@@ -985,8 +1063,8 @@ fn pending_cases(cat: &[AppCfg], only: &str) -> Vec<Case> {
         family: fam.into(),
         over: None,
     };
-    // (no class is pending: D-NONOBJ-ECHO, O-OOR-TREE and the array-typed query were fixed in /repo)
-    let _ = (&mk, only);
+    // (every class reported so far was fixed in /repo and its families moved to the main stream)
+    let _ = (&mk, only, &good_unused());
     v
 }
 
@@ -1039,6 +1117,13 @@ fn main() {
         named.push(("nonobject_query".into(), mkc(0, json!([5, null, "s", {"tag": "t1", "origin_vertex": 0, "destination_vertex": 8}]), &[], "corpus_nonobject_query")));
         named.push(("array_query".into(), mkc(2, json!([[], {"tag": "t1", "origin_vertex": 0, "destination_vertex": 8}, [[]], [{"tag": "t2", "origin_vertex": 0, "destination_vertex": 8}]]), &[], "corpus_array_query")));
         named.push(("oor_origin_without_destination".into(), mkc(0, json!([{"tag": "t0", "origin_vertex": 99}, {"tag": "t1", "origin_vertex": 0, "destination_vertex": 8}]), &["t0"], "corpus_oor_origin")));
+        {
+            // fixed dcfc7c1: frequency = 0 made every search panic (`iteration % frequency`); now a configuration error
+            let mut c = AppCfg::basic(Net::grid(3, 3));
+            c.termination = Termination::RuntimeS(600, 0);
+            named.push(("termination_frequency_zero".into(), Case { cfg_id: 101, cfg: c, user: json!([{"tag": "t0", "origin_vertex": 0, "destination_vertex": 8}]), must_err: vec![], family: "corpus_config_refused_frequency_zero".into(), over: None }));
+        }
+        named.push(("vehicle_rates_combined".into(), mkc(1, json!([{"tag": "t0", "origin_vertex": 0, "destination_vertex": 8, "vehicle_rates": {"time": ["combined"]}}, {"tag": "t1", "origin_vertex": 1, "destination_vertex": 2}]), &[], "corpus_vehicle_rates_combined")));
         named.push(("grid_child_fails_matching".into(), mkc(19, json!([{"tag": "t0", "origin_x": -105.0, "origin_y": 39.7, "grid_search": {"destination_x": [-104.99, 0.0, -104.98], "destination_y": [39.7]}}, {"tag": "t1", "origin_x": -105.0, "origin_y": 39.7, "destination_x": -104.98, "destination_y": 39.72}]), &[], "corpus_grid_child_fails")));
         for (i, (name, c)) in named.iter().enumerate() {
             let d = json!({"family": c.family, "cfg_id": c.cfg_id, "cfg": cfg_to_json(&c.cfg), "user": c.user, "must_err": c.must_err, "override": c.over});
